@@ -26,7 +26,8 @@ RULE = ("generated func/arith/scf/cf/memref programs (xv.c14_gen: default statem
         "trigger shapes: constant-constant operands at boundary values, identities on both sides, same-operand ops, "
         "select/cmpi/chains, re-emitted identical subexpressions in nested regions, +0.0/-0.0/NaN constant groups, "
         "memref reads with writers in between, scf.while, cf diamonds, helper and external calls, module-level "
-        "straight-line programs) x 5 passes x 8 boundary/random inputs; a (program, pass) case is non-trivial if the "
+        "straight-line programs; 15 % multi-block cf programs of xv.gencfg: diamonds, triangles, counted loops, "
+        "pass-through blocks, constant conditions, unreachable blocks) x 5 passes x 8 boundary/random inputs; a (program, pass) case is non-trivial if the "
         "pass changed the canonical form of the program and >=1 input with defined source behaviour was compared; "
         "distinct by hash of (pass, canonical form of the source program)")
 LEVEL_TEXT = ("Each generated program is run by an independent reference semantics before and after every pass on "
@@ -709,6 +710,8 @@ def run_case(cx: Ctx, text, kind, argtypes, inputs, passes, tag=""):
         if triggered and compared:
             cx.res["nontrivial"].append(shash((pn, h0)))
             cx.count(f"nontrivial:{pn}")
+            if tag:
+                cx.count(f"nontrivial_{tag}:{pn}")
             if len(cx.res["samples"]) < 3 and nops < 30:
                 cx.res["samples"].append({"pass": pn, "program": text, "after": str(m2), "inputs_compared": compared})
 
@@ -749,6 +752,17 @@ def plan(tier, seed):
 
 def gen_case(case_seed):
     from xv.c14_gen import Gen14, inputs_for
+    if random.Random(f"{case_seed}/cfg").random() < 0.15:
+        # multi-block cf programs (xv.gencfg): diamonds, triangles, counted loops, pass-through blocks, constant
+        # conditions, unreachable blocks - the workload of the cf canonicalization patterns
+        from xv.gencfg import gen_cfg_func
+        rng = random.Random(f"{case_seed}/cfgprog")
+        if rng.random() < 0.5:
+            from xv.c14_gen import cfg_program
+            text, argt, _ = cfg_program(rng)  # same generator, operands biased towards pass-through block arguments
+        else:
+            text, argt, _ = gen_cfg_func(rng)
+        return text, "func", argt, inputs_for(rng, argt, N_INPUTS if argt else 1), {"cfg_program": 1}, "cfg"
     rng = random.Random(case_seed)
     r = rng.random()
     no_var_addi = rng.random() < 0.3
@@ -769,7 +783,7 @@ def gen_case(case_seed):
         text, argt = g.module_text()
         kind = "func"
         inputs = inputs_for(rng, argt, N_INPUTS if argt else 1)
-    return text, kind, argt, inputs, g.shape_count
+    return text, kind, argt, inputs, g.shape_count, ""
 
 
 def work(job):
@@ -781,10 +795,10 @@ def work(job):
         run_case(cx, job["text"], job["pkind"], job["argtypes"], inputs, job["passes"])
         return cx.res
     for i in range(job["n"]):
-        text, kind, argt, inputs, shapes = gen_case(f"{job['seed']}:{i}")
+        text, kind, argt, inputs, shapes, tag = gen_case(f"{job['seed']}:{i}")
         for k, v in shapes.items():
             cx.count("shape:" + k, v)
-        run_case(cx, text, kind, argt, inputs, PASSES)
+        run_case(cx, text, kind, argt, inputs, PASSES, tag=tag)
     return cx.res
 
 
@@ -832,6 +846,10 @@ def finish(agg, tier):
                        f"{rates[pn]['trigger_rate']}")
     if c.get("folds_compared:canonicalize", 0) < (800 if tier == "quick" else 15000):
         inc.append("fold audit saw too few canonicalize folds")
+    need_cfg = 40 if tier == "quick" else 800
+    if c.get("nontrivial_cfg:canonicalize", 0) < need_cfg:
+        inc.append(f"only {c.get('nontrivial_cfg:canonicalize', 0)} multi-block cf programs were changed by canonicalize "
+                   f"and compared (< {need_cfg})")
     runs = c.get("source_runs", 0)
     excl = sum(v for k, v in c.items() if k.startswith("source_excluded_"))
     if runs and excl * 2 > runs:
